@@ -90,6 +90,11 @@ DecompClass(n, f, v) ==
      ELSE IF c1 = Z THEN "Lt"
      ELSE IF c0 = O \ c1 THEN "Xor"
      ELSE "None"
+\* the four families DecompositionType sorts its classes into (is_trivial, is_and_type, is_xor_type, is_simple_gate)
+ClassFlags(c) == [trivial |-> c \in {"Independent", "Identity", "Negation"},
+                  andt    |-> c \in {"And", "Or", "Le", "Lt"},
+                  xort    |-> c = "Xor",
+                  gate    |-> c \in {"And", "Or", "Le", "Lt", "Xor"}]
 PosUnate(n, f, v) == Cof0(n, f, v) \subseteq Cof1(n, f, v)
 NegUnate(n, f, v) == Cof1(n, f, v) \subseteq Cof0(n, f, v)
 
